@@ -390,6 +390,52 @@ static std::string doXdom(const std::vector<std::string>& evs)
     return reply;
 }
 
+// ---- xml-stylesheet PI scan -------------------------------------------------------------------------
+//  pi <child>...   children of the document before the document element: X:<data> (PI xml-stylesheet), O (another PI),
+//                  M (comment).  The document is built through XalanDocumentBuilder and transformed with the
+//                  "stylesheet from the PI" overload; the stylesheets named by the hrefs print their own name.
+//  reply:          rc=<status> out=<text of the result>
+static std::string doPi(XalanTransformer& tr, const std::vector<std::string>& kids)
+{
+    XalanDocumentBuilder* const b = tr.createDocumentBuilder();
+    std::string reply;
+    try
+    {
+        xercesc::ContentHandler* const ch = b->getContentHandler();
+        xercesc::LexicalHandler* const lh = b->getLexicalHandler();
+        const XalanDOMChar empty = 0;
+        static const XalanDOMChar xs[] = { 'x','m','l','-','s','t','y','l','e','s','h','e','e','t',0 };
+        static const XalanDOMChar ot[] = { 'o','t','h','e','r',0 };
+        static const XalanDOMChar rn[] = { 'r',0 };
+        ch->startDocument();
+        for (const std::string& e : kids)
+        {
+            std::vector<std::string> f = split(e, ':');
+            U16 a;
+            if (e[0] == 'X') { if (f.size() != 2 || !unitsOf(f[1], a)) return "bad"; ch->processingInstruction(xs, &a[0]); }
+            else if (e[0] == 'O') ch->processingInstruction(ot, &empty);
+            else if (e[0] == 'M') lh->comment(ot, 5);
+            else return "bad";
+        }
+        AttributesImpl attrs;
+        ch->startElement(&empty, rn, rn, attrs);
+        ch->endElement(&empty, rn, rn);
+        ch->endDocument();
+        std::ostringstream os;
+        std::ostringstream msgs;
+        tr.setWarningStream(&msgs);
+        tr.setErrorStream(&msgs);
+        const int rc = tr.transform(*b, XSLTResultTarget(os));
+        std::string out = os.str();
+        std::string txt;
+        for (char c : out) if (c == 'A' || c == 'B') txt.push_back(c);
+        reply = "rc=" + std::to_string(rc == 0 ? 0 : -1) + " out=" + (txt.empty() ? "-" : txt);
+    }
+    catch (const XalanDOMException&) { reply = "err dom"; }
+    tr.destroyDocumentBuilder(b);
+    return reply;
+}
+
 // ---- callback stream --------------------------------------------------------------------------
 struct Sink
 {
@@ -485,6 +531,7 @@ int main()
             else if (sub == "fst") r = doFst(t);
             else if (sub == "wrap") r = doWrap(t);
             else if (sub == "xdom") r = doXdom(t);
+            else if (sub == "pi") r = doPi(tr, t);
             else if (sub == "data") r = t.size() == 1 ? doData(t[0]) : "bad";
             else r = "bad";
             std::cout << r << "\n";
